@@ -33,7 +33,7 @@ ScenarioOf(ms, paths) ==
          THEN << VolCreate(OutName, paths, "refuse"), FileEq(OutName, << Lit(<<1, 2, 3>>) >>) >>
               \o [i \in 1..n |-> FileEq(paths[i], ms[i].data)]
          ELSE << VolCreate(OutName, paths, "ok"), FileEq(OutName, Layout(s)), VolOpen(OutName, listing) >>
-              \o perMember \o << VolMemberErr(Len(s)), VolMemberErr(Len(s) + 1), VolIndex(<<113>>, NoIndex), VolExtractAll(<<122>>) >>)
+              \o perMember \o << VolMemberErr(Len(s)), VolMemberErr(Len(s) + 1), VolIndex(<<113>>, NoIndex), VolExtractAll(<<120,122>>) >>)
 Scenario(ixs, szs, ds) == ScenarioOf([i \in 1..Len(ixs) |-> Member(ixs[i], szs[i], i)], [i \in 1..Len(ixs) |-> PathOf(ds[i], ixs[i])])
 \* the output path names one of the inputs (same spelling up to letter case and a leading "./"): refused, nothing modified
 OutVariants == << OutName, <<46,47>> \o OutName, ToUpper(OutName), <<46,47,79,46,118,111,108>> >>       \* "o.vol" "./o.vol" "O.VOL" "./O.vol"
